@@ -194,3 +194,10 @@ static inline int post_verif_slice_ell(sv_t indices, sv_t shape, int i, int step
       && IMPLIES(g < r - 3UL, SV_AT(ret, 2UL + g) == SV_AT(indices, 1UL + g) && SV_AT(ret, 2UL + g) < SV_AT(shape, 2UL + g))
       && SV_AT(ret, r - 1UL) == c05_int_norm(C05_NA(shape, r - 1UL), j);
 }
+
+/* ---- run-time slice list (array<int,3> encoding, one entry): same contract as the packed a[start:stop:step] (encoding iii);
+ *      both encodings are proved equal to the same Python spec, hence agree with each other */
+static inline int pre_verif_shape_dynamic_slice_1(sv_t shape, int start, int stop, int step) { return c05_pre_shape1(shape) && c05_step_ok(step); }
+static inline int post_verif_shape_dynamic_slice_1(sv_t shape, int start, int stop, int step, sv_t ret) { return c05_post_shape1(shape, 1, start, 1, stop, 1, step, ret); }
+static inline int pre_verif_dynamic_slice_1(sv_t indices, sv_t shape, int start, int stop, int step) { return step != 0 && c05_pre_index1(indices, shape, 1, start, 1, stop, 1, step); }
+static inline int post_verif_dynamic_slice_1(sv_t indices, sv_t shape, int start, int stop, int step, sv_t ret) { return c05_post_index1(indices, shape, 1, start, 1, stop, 1, step, ret); }
